@@ -3,7 +3,16 @@
      A <size> <hex>   add                       -> "A ok <offset>" | "A err InvalidArgument"
      Q                accessors                 -> "Q <size> <alignment> <min_item_size>"
      F                fill                      -> "F <hex>"
-     E <mode> <pre>   embed through an emitter  -> "E <hex>"   (the model only knows the pool image) *)
+     E <mode> <pre>   embed through an emitter  -> "E <hex> <label offset> <section size>" by embed_layout (C19_embed_layout);
+                                                  mode 5 (pool behind a compiled function of unknown length): "E <hex>"
+     X <mode>         execute on the host       -> "X <hex>"   (what reading size bytes at each returned offset of the model's
+                                                                image gives, constants in history order)
+     S                coverage counters         -> "S <gaps lost by the pop-several quirk (DESIGN 7.12) in this history> <adds that re-used a gap>"
+                                                  (model only: the harness answers "S")
+   Judge stream (the extracted, proven-sound ConstPoolJudge.judge applied to answers of the IMPLEMENTATION):
+     j                          start a transcript                      -> "j"
+     a <size> <hex|-> ok <off>  |  a <size> <hex|-> err                 -> "a"
+     J <image hex|-> <size()> <alignment()> <min_item_size()>           -> "J 1" (accepted) | "J 0" (rejected) *)
 open Zconv
 
 let hexdigit c = match c with
@@ -21,25 +30,51 @@ let hex_of_bytes (l : Constpool.z list) =
 
 let () =
   let pool = ref Constpool.cp_init in
+  let oks = ref [] in
+  let tr = ref [] in
+  let lost = ref 0 and reused = ref 0 in
+  let ngaps p = List.fold_left (fun a l -> a + List.length l) 0 (Constpool.gaps p) in     (* observed transcript for the judge, most recent first *)    (* (offset, size) of the successful adds of the current history, most recent first *)
   try
     while true do
       let line = input_line stdin in
       let toks = List.filter (fun s -> s <> "") (String.split_on_char ' ' (String.trim line)) in
       match toks with
-      | "N" :: _ -> pool := Constpool.cp_init; print_endline "N"
-      | "R" :: _ -> pool := Constpool.cp_init; print_endline "R"
+      | "N" :: _ -> pool := Constpool.cp_init; oks := []; lost := 0; reused := 0; print_endline "N"
+      | "R" :: _ -> pool := Constpool.cp_init; oks := []; lost := 0; reused := 0; print_endline "R"
+      | "S" :: _ -> Printf.printf "S %d %d\n" !lost !reused
       | "A" :: size :: rest ->
         let data = match rest with h :: _ when h <> "-" -> bytes_of_hex h | _ -> [] in
         let (p, r) = Constpool.cp_add !pool data (cz_of_string size) in
+        (* gaps lost by the pop-several quirk: the ghost of C19_partition (ConstPoolPartition.lost_step), evaluated BEFORE the add;
+           a gap was re-used iff the pool did not grow but the number of free gaps fell *)
+        lost := !lost + List.length (Constpool.lost_step !pool data (cz_of_string size));
+        (if Z.equal (z_of_cz (Constpool.psize p)) (z_of_cz (Constpool.psize !pool)) && ngaps !pool - ngaps p > 0 then incr reused);
         pool := p;
         (match r with
-         | Constpool.Ok off -> Printf.printf "A ok %s\n" (string_of_cz off)
+         | Constpool.Ok off -> oks := (Z.to_int (z_of_cz off), int_of_string size) :: !oks; Printf.printf "A ok %s\n" (string_of_cz off)
          | Constpool.InvalidArgument -> print_endline "A err InvalidArgument")
       | "Q" :: _ ->
         Printf.printf "Q %s %s %s\n" (string_of_cz (Constpool.psize !pool)) (string_of_cz (Constpool.palign !pool))
           (string_of_cz (Constpool.pmin !pool))
       | "F" :: _ -> Printf.printf "F %s\n" (hex_of_bytes (Constpool.cp_fill !pool))
-      | "E" :: _ -> Printf.printf "E %s\n" (hex_of_bytes (Constpool.cp_fill !pool))
+      | "E" :: mode :: pre :: _ ->
+        if mode = "5" then Printf.printf "E %s\n" (hex_of_bytes (Constpool.cp_fill !pool))
+        else
+          let (lab, fin) = Constpool.embed_layout (cz_of_string pre) !pool in
+          Printf.printf "E %s %s %s\n" (hex_of_bytes (Constpool.cp_fill !pool)) (string_of_cz lab) (string_of_cz fin)
+      | "j" :: _ -> tr := []; print_endline "j"
+      | "a" :: size :: hex :: "ok" :: off :: _ ->
+        tr := ((((if hex = "-" then [] else bytes_of_hex hex), cz_of_string size), Constpool.Ok (cz_of_string off))) :: !tr; print_endline "a"
+      | "a" :: size :: hex :: "err" :: _ ->
+        tr := ((((if hex = "-" then [] else bytes_of_hex hex), cz_of_string size), Constpool.InvalidArgument)) :: !tr; print_endline "a"
+      | "J" :: img :: sz :: al :: mn :: _ ->
+        let ok = Constpool.judge (List.rev !tr) (if img = "-" then [] else bytes_of_hex img) (cz_of_string sz) (cz_of_string al) (cz_of_string mn) in
+        print_endline (if ok then "J 1" else "J 0")
+      | "X" :: _ ->
+        let img = hex_of_bytes (Constpool.cp_fill !pool) in
+        let b = Buffer.create 256 in
+        List.iter (fun (off, size) -> Buffer.add_string b (String.sub img (2 * off) (2 * size))) (List.rev !oks);
+        Printf.printf "X %s\n" (Buffer.contents b)
       | [] -> ()
       | _ -> print_endline "BAD"
     done
